@@ -39,6 +39,14 @@ FIELD_PATTERNS = [
 
 _LANG_IN_KEY = False
 
+# Reviewed table: methods of Settings that may be streamed, the pseudo member that stands for their value and the
+# members they read (lib/settings.h). A member that reaches toolinfo only through such a method is NOT counted as
+# streamed (the method need not be injective in it: getMaxConfigs() maps "not assigned" and "12" to the same value).
+METHOD_TABLE = {
+    "getMaxConfigs": ("F_getMaxConfigs", ["F_force", "F_maxConfigsOption", "F_userDefines"]),   # + maxConfigsProject (not modelled)
+}
+_METHODS_USED = []
+
 
 class TranslateError(Exception):
     pass
@@ -87,6 +95,7 @@ def statements(body):
 
 
 def key_fields(repo):
+    del _METHODS_USED[:]
     src = strip_comments(open(os.path.join(repo, "lib", "cppcheck.cpp")).read())
     body = function_body(src, r"std::size_t\s+CppCheck::calculateHash\s*\([^)]*\)\s*const\s*\{")
     fields = []
@@ -110,6 +119,13 @@ def key_fields(repo):
             continue
         if re.match(r"mSuppressions\.nomsg\.dump\(\s*toolinfo\s*,\s*filePath\s*\)\s*;", st):
             fields.append("F_suppressions")
+            continue
+        mm = re.match(r"toolinfo\s*<<\s*mSettings\.(\w+)\(\s*\)\s*;$", st)
+        if mm:
+            if mm.group(1) not in METHOD_TABLE:
+                raise TranslateError("method of Settings streamed into toolinfo that is not in the reviewed table: %r" % st)
+            fields.append(METHOD_TABLE[mm.group(1)][0])
+            _METHODS_USED.append(mm.group(1))
             continue
         if re.match(r"toolinfo\s*<<", st):
             hits = [f for pat, f in FIELD_PATTERNS if re.search(pat, st)]
@@ -193,7 +209,11 @@ def generate(repo, out_path):
            "Definition key_fields : list field :=\n  [%s].\n\n"
            "Definition loc_enc : locenc := %s.\n\n"
            "Definition hdr_path_in_key : bool := %s.\n\n"
-           "Definition lookup_mode_ : lookup_mode := %s.\n" % ("; ".join(kf), le, hp, lmode))
+           "Definition lookup_mode_ : lookup_mode := %s.\n\n"
+           "(* methods of Settings streamed into toolinfo: pseudo member, members read *)\n"
+           "Definition method_reads : list (field * list field) :=\n  [%s].\n" % (
+               "; ".join(kf), le, hp, lmode,
+               "; ".join("(%s, [%s])" % (METHOD_TABLE[m][0], "; ".join(METHOD_TABLE[m][1])) for m in _METHODS_USED)))
     old = open(out_path).read() if os.path.exists(out_path) else None
     if old != txt:
         with open(out_path, "w") as f:
